@@ -166,11 +166,13 @@ def readELS (d : Bytes) : P :=
       if il < 61 then none else
       some (d.take 2 ++ key ++ hdr ++ ob ++ r.take 2 ++ r2.take il ++ sb, rem)
 
-/-- value checks performed by go-i2p/crypto constructors (outside /repo): ElGamal 2 ≤ Y < p−1 is
-    approximated by what is observable without the 2048-bit prime: the harness supplies keys that are
-    either clearly valid or clearly invalid (0, 1, all-ones) -/
-def elgValid (k : Bytes) : Bool := beVal k ≥ 2 && k.take 8 != List.replicate 8 255
-def dsaValid (k : Bytes) : Bool := beVal k ≥ 2 && (k.headD 0).toNat < 156
+/-- value checks performed by go-i2p/crypto constructors (outside /repo; the bounds were measured by binary
+    search against `elg.NewElgPublicKey` / `dsa.NewDSAPublicKey`): an ElGamal key is accepted iff
+    `2 ≤ Y < p − 1` for I2P's 2048-bit ElGamal prime, a DSA key iff `2 ≤ Y < p` for I2P's 1024-bit DSA prime. -/
+def elgBound : Nat := 32317006071311007300338913926423828248817941241140239112842009751400741706634354222619689417363569347117901737909704191754605873209195028853758986185622153212175412514901774520270235796078236248884246189477587641105928646099411723245426622522193230540919037680524235519125679715870117001058055877651038861847280257976054903569732561526167081339361799541336476559160368317896729073178384589680639671900977202194168647225871031411336429319536193471636533209717077448227988588565369208645296636077250268955505928362751121174096972998068410554359584866583291642136218231078990999448652468262416972035911852507045361090558
+def dsaBound : Nat := 109562555141185572592979399169788194164397094775005146407392677495381913755607968244477236408557208379726401338240052325714171822842630720462775574244994319498411672396013371979368111175489307598999756694593395222067217750072023982586443391041775511025125000701345024062639875105633402337620615096306473114771
+def elgValid (k : Bytes) : Bool := beVal k ≥ 2 && beVal k < elgBound
+def dsaValid (k : Bytes) : Bool := beVal k ≥ 2 && beVal k < dsaBound
 
 /-- `lease_set.ReadLeaseSet`: returns no remainder (trailing bytes are ignored); the second
     component is what was left unread. -/
